@@ -240,25 +240,26 @@ pub fn float_inputs(seed: u64, count: usize, nmax: usize, dims: &[usize]) -> Vec
                 let c = DVec3::splat(0.5);
                 let wmin = width.min_element();
                 gens.push(anchor + c * width);
-                // a gap of three slots in the ring (the cell reaches through it until a later neighbour closes it)
+                // a gap of five slots in the ring (the cell reaches through it until a later neighbour closes it)
                 let gap0 = rng.gen_range(0..m);
                 for i in 0..m {
-                    if (i + m - gap0) % m < 3 {
+                    if (i + m - gap0) % m < 5 {
                         continue;
                     }
                     let phi = (i as f64 + rng.gen_range(-0.2..0.2)) * std::f64::consts::TAU / m as f64;
                     let r = 0.25 * (1.0 + 0.01 * rng.gen_range(-1.0..1.0));
                     gens.push(anchor + c * width + DVec3::new(phi.cos(), phi.sin(), 0.0) * r * wmin);
                 }
-                gens.push(anchor + c * width + DVec3::Z * 0.30 * wmin);
-                if rng.gen_bool(0.5) {
-                    // (without it the bottom of the prism stays on the wall of the box)
-                    gens.push(anchor + c * width - DVec3::Z * 0.31 * wmin);
+                gens.push(anchor + c * width + DVec3::Z * 0.26 * wmin);
+                if (k / kinds.len()) % 2 == 1 {
+                    // (every other prism; without it the bottom of the prism stays on the wall of the box - the first one has none)
+                    gens.push(anchor + c * width - DVec3::Z * 0.27 * wmin);
                 }
                 {
                     // the neighbour that closes the gap, after the big clips
-                    let phi = (gap0 as f64 + 1.0) * std::f64::consts::TAU / m as f64;
-                    gens.push(anchor + c * width + DVec3::new(phi.cos(), phi.sin(), 0.0) * 0.33 * wmin);
+                    // (just beyond the neighbour above; its bisector still reaches the edge of the prism in the middle of the gap)
+                    let phi = (gap0 as f64 + 2.0) * std::f64::consts::TAU / m as f64;
+                    gens.push(anchor + c * width + DVec3::new(phi.cos(), phi.sin(), 0.0) * 0.265 * wmin);
                 }
                 for _ in 0..rng.gen_range(2..=4) {
                     let phi = rng.gen_range(0.0..std::f64::consts::TAU);
